@@ -136,6 +136,16 @@ type VerifForkView struct {
 	// Sentinel (metadata file) names currently in the scheduler's cache.
 	Meta, Split, Join []string
 	Chunks            []VerifChunkView
+	// One entry per enclosing mapped call, outermost first.
+	Parts []VerifForkPart
+}
+
+// VerifForkPart is one component of a fork id.
+type VerifForkPart struct {
+	CallId string // id of the mapped call statement
+	Kind   string // array | map | unknown | empty
+	Index  int
+	Key    string
 }
 
 // VerifChunkView is a read-only view of one chunk.
@@ -190,6 +200,21 @@ func (self *Pipestance) VerifNodes() []VerifNodeView {
 				Meta:    f.metadata.serializeState().Names,
 				Split:   f.split_metadata.serializeState().Names,
 				Join:    f.join_metadata.serializeState().Names,
+			}
+			for _, part := range f.forkId {
+				pv := VerifForkPart{Kind: "unknown"}
+				if part.Split != nil && part.Split.Call != nil {
+					pv.CallId = part.Split.Call.Id
+				}
+				switch id := part.Id.(type) {
+				case arrayIndexFork:
+					pv.Kind, pv.Index = "array", int(id)
+				case mapKeyFork:
+					pv.Kind, pv.Key = "map", string(id)
+				case emptyFork:
+					pv.Kind = "empty"
+				}
+				fv.Parts = append(fv.Parts, pv)
 			}
 			for _, c := range f.chunks {
 				fv.Chunks = append(fv.Chunks, VerifChunkView{
